@@ -39,7 +39,7 @@ P = ScenarioProperty(
     lambda sc: [C08Checker(sc)],
     _judge,
     quick=3200,
-    thorough=60000, machine={},
+    thorough=60000, machine={"budget": (800, 16000), "profile": {"levels": (3, 3), "level_limit_max": 2}},
     run_kwargs={"observe_chain": True},
 )
 run_shard = P.run_shard
